@@ -11,6 +11,7 @@ import (
 	"io"
 	"log"
 	"strings"
+	"sync"
 	"time"
 
 	"github.com/gocql/gocql"
@@ -80,7 +81,7 @@ func runLive(o *hlib.Out, k int, adv []string, advKey bool, proto int, auth bool
 	cfg.ProtoVersion = proto
 	cfg.Timeout = 5 * time.Second
 	cfg.ConnectTimeout = 5 * time.Second
-	cfg.NumConns = 1
+	cfg.NumConns = 2
 	cfg.Keyspace = "demo"
 	cfg.Consistency = gocql.One
 	cfg.Compressor = liveCompressor(k)
@@ -133,6 +134,33 @@ func runLive(o *hlib.Out, k int, adv []string, advKey bool, proto int, auth bool
 			viol("live-write", fmt.Sprintf("BATCH: %v", err))
 		}
 	}
+	// concurrent requests with compressible bodies of mixed sizes (smaller after larger): what the node decodes
+	// for each key must be what that caller sent
+	sentByKey := map[string]string{}
+	{
+		var wg sync.WaitGroup
+		var mu sync.Mutex
+		for g := 0; g < 8; g++ {
+			wg.Add(1)
+			go func(g int) {
+				defer wg.Done()
+				for i := 0; i < 12; i++ {
+					sz := []int{2400, 60, 1200, 20, 2400, 300}[(i+g)%6]
+					key := fmt.Sprintf("c%d-%d", g, i)
+					val := strings.Repeat(fmt.Sprintf("<%s>", key), sz/len(key)+1)[:sz]
+					mu.Lock()
+					sentByKey[key] = val
+					mu.Unlock()
+					if err := s.Query(`INSERT INTO kv (k, v) VALUES (?, ?)`, key, val).Exec(); err != nil {
+						mu.Lock()
+						viol("live-write", fmt.Sprintf("concurrent INSERT %s (%d bytes): %v", key, sz, err))
+						mu.Unlock()
+					}
+				}
+			}(g)
+		}
+		wg.Wait()
+	}
 	s.Close()
 
 	// ---- what the node saw ----
@@ -177,10 +205,20 @@ func runLive(o *hlib.Out, k int, adv []string, advKey bool, proto int, auth bool
 		}
 		if req.Execute != nil && len(req.Execute.Params.Values) == 2 {
 			val := string(req.Execute.Params.Values[1].Bytes)
-			if key := string(req.Execute.Params.Values[0].Bytes); (key == "w1" && val != big) || (key == "w2" && val != string(rnd)) {
+			key := string(req.Execute.Params.Values[0].Bytes)
+			if (key == "w1" && val != big) || (key == "w2" && val != string(rnd)) {
 				viol("live-write-transparency", "bound value of "+key+" arrived changed")
 			}
+			if want, ok := sentByKey[key]; ok {
+				if val != want {
+					viol("live-write-transparency", fmt.Sprintf("concurrent request %s: the node decodes a %d-byte value, the caller sent %d bytes", key, len(val), len(want)))
+				}
+				delete(sentByKey, key)
+			}
 		}
+	}
+	if len(sentByKey) != 0 {
+		viol("live-write-transparency", fmt.Sprintf("%d concurrent requests never reached the node as sent", len(sentByKey)))
 	}
 	for _, op := range []byte{0x05, 0x01, 0x07, 0x09, 0x0A, 0x0B} {
 		if seen[op] == 0 {
